@@ -847,6 +847,12 @@ func (e *env) cutGet(st *Step) {
 				}
 			}
 		}
+		// (whatever these installs caused besides - results for operations held earlier - may travel in messages
+		// of their own: everything is read before the writer half-closes, a server may end the RPC as soon as it
+		// sees the half-close)
+		simrt.AwaitQuiescence("writer-results")
+		r1, _ := e.drain(wr)
+		rs = append(rs, r1...)
 		wr.mc.CloseSend()
 		wr.closed = true
 		simrt.AwaitQuiescence("writer-close")
@@ -918,6 +924,10 @@ func (e *env) liveness(when string) {
 			}
 		}
 	}
+	// (results that these installs caused for operations held earlier may follow in messages of their own)
+	simrt.AwaitQuiescence("liveness-results")
+	more, _ := e.drain(s)
+	rs = append(rs, more...)
 	e.processResults(s, rs)
 	for _, op := range ops {
 		if e.allOps[op.GetId()].state != opProgrammed {
